@@ -72,7 +72,14 @@ Definition chain_fun_path (steps : list rstep) (fs : list (list N)) : list N := 
 
 (* a step of a path, or an existence filter over a path of steps: [?(@ steps)] *)
 Definition filt_text (isteps : list rstep) : list N := [91; 63; 40; 64] ++ render_steps isteps ++ [41; 93].
-Inductive fstep := FS (x : rstep) | FE (isteps : list rstep).
-Definition render_fstep (x : fstep) : list N := match x with FS y => render_rstep y | FE i => filt_text i end.
+(* a comparison filter [?(@ steps OP number)] *)
+Inductive cmpop := OEq | ONe | OLt | OLe | OGt | OGe.
+Definition op_text (o : cmpop) : list N :=
+  match o with OEq => [61; 61] | ONe => [33; 61] | OLt => [60] | OLe => [60; 61] | OGt => [62] | OGe => [62; 61] end.
+Definition cmp_text (isteps : list rstep) (o : cmpop) (lit : list N) : list N :=
+  [91; 63; 40; 64] ++ render_steps isteps ++ op_text o ++ lit ++ [41; 93].
+Inductive fstep := FS (x : rstep) | FE (isteps : list rstep) | FC (isteps : list rstep) (o : cmpop) (lit : list N).
+Definition render_fstep (x : fstep) : list N :=
+  match x with FS y => render_rstep y | FE i => filt_text i | FC i o lit => cmp_text i o lit end.
 Definition render_fsteps (l : list fstep) : list N := flat_map render_fstep l.
 Definition fchain_path (l : list fstep) : list N := 36 :: render_fsteps l.
